@@ -10,6 +10,9 @@
 (*   "cast"    root{ f1: X, f2: Y }, root{ f1: array[X] }: X, Y typed sources   *)
 (*             (script results of every kind) and fields / consts under every  *)
 (*             result type - the conversion matrix                             *)
+(*   "ietwin"  root{ f1: X, f2: Y } and root{ f1: array[X, Y] }: X, Y script     *)
+(*             calls (one of them throwing) that differ at most in             *)
+(*             ignore_error - equal text otherwise                             *)
 (*   "dyn"     root{ f1: dynfield[C], f2: X } and root{ f1: array[dynfield[C]], *)
 (*             f2: X }: computed xpaths whose computation succeeds, is empty   *)
 (*             or fails, next to a declaration with the same text             *)
@@ -59,8 +62,15 @@ Types == {"none", "int", "float", "boolean", "string"}
 JsV == {V("jsconst", 0, ty, FALSE, keep, lit) : ty \in Types, keep \in {FALSE}, lit \in {"int:7", "float:1.5", "bool:true", "str:1", "str:1.5", "str:x", "str:true"}}
 TypedV == JsV \cup {V("field", xp, ty, FALSE, FALSE, "") : xp \in {0, 1}, ty \in Types}
               \cup {V("const", 0, ty, nt, FALSE, lit) : ty \in Types, nt \in BOOLEAN, lit \in {"1", " y ", ""}}
+MkIE(m, p, v, ie) == [m |-> m, par |-> p, kind |-> [i \in 1..m |-> v[i].kind], xp |-> [i \in 1..m |-> v[i].xp], ty |-> [i \in 1..m |-> v[i].ty],
+                      notrim |-> [i \in 1..m |-> v[i].notrim], keep |-> [i \in 1..m |-> v[i].keep], lit |-> [i \in 1..m |-> v[i].lit], ie |-> ie]
+TwinV == {V("jsconst", 0, "none", FALSE, FALSE, lit) : lit \in {"throw:x", "str:x"}}
 Trees ==
-  CASE Family = "cast" ->
+  CASE Family = "ietwin" ->
+         { MkIE(3, <<0, 1, 1>>, <<V("object", 0, "none", FALSE, FALSE, ""), x, y>>, <<FALSE, a, b>>) : x \in TwinV, y \in TwinV, a \in BOOLEAN, b \in BOOLEAN }
+         \cup { MkIE(4, <<0, 1, 2, 2>>, <<V("object", 0, "none", FALSE, FALSE, ""), V("array", 0, "none", FALSE, FALSE, ""), x, y>>, <<FALSE, FALSE, a, b>>) :
+                   x \in TwinV, y \in TwinV, a \in BOOLEAN, b \in BOOLEAN }
+    [] Family = "cast" ->
          { Mk(3, <<0, 1, 1>>, <<V("object", 0, "none", FALSE, FALSE, ""), x, y>>) : x \in TypedV, y \in JsV }
          \cup { Mk(3, <<0, 1, 2>>, <<V("object", 0, "none", FALSE, FALSE, ""), V("array", 0, "none", FALSE, FALSE, ""), x>>) : x \in TypedV }
     [] Family = "dyn" ->
